@@ -644,7 +644,7 @@ fn first_error_line(log: &str) -> String {
 // ----------------------------------------------------------------------- report
 
 pub fn class_priority(c: &str) -> usize {
-    ["wrong-on-canonical-input", "traps", "wrong-value", "low-bits-wrong", "high-bits-garbage", "no-sign-extension", "not-zero-extended", "bool-not-0-or-1", "bits-changed", "round-trip", "high-bits-not-ignored", "undefined-behaviour"]
+    ["wrong-on-canonical-input", "wrong-value", "low-bits-wrong", "high-bits-garbage", "no-sign-extension", "not-zero-extended", "bool-not-0-or-1", "bits-changed", "traps", "undefined-behaviour", "round-trip", "high-bits-not-ignored"]
         .iter()
         .position(|x| *x == c)
         .unwrap_or(99)
